@@ -14,3 +14,6 @@ open HmcVerif HmcVerif.C12 HmcVerif.Async
 #print axioms script_wellFormed
 #print axioms tempering_all_interleavings
 #print axioms columns_per_chain
+#print axioms sendOk_preserved
+#print axioms symmetric_send_deadlocks
+#print axioms symmetric_send_completes_when_buffered
